@@ -1,5 +1,7 @@
 import Swat4.Lemmas.GS1
 import Swat4.Lemmas.Details
+import Swat4.Lemmas.DetailsComplete
+import Swat4.Lemmas.DetailsEncode
 import Swat4.Gen.Facts
 /-!
 # C07 — No probe response can crash or hang the prober
@@ -150,7 +152,12 @@ only partial Go operations of `NewDetailsFromParams` / `params.Unmarshal` / `Det
 structural function (`unmarshal`, `parseVal`, `atoi`, `ratioOk` via `takeWhile`/`dropWhile`).  Hence
 for every decoded response the stage yields a details value, `ErrParseFailed` or `ErrValidationFailed`.
 That the *implementation* has no further partial operation is what the correspondence run checks
-(a panic in a validator is the output `panic:…`, never produced by the model). -/
+(a panic in a validator is the output `panic:…`, never produced by the model).
+
+NOT in the audited list (`bin/propcfg/C07.py`): the statement is true of *any* function into `Outcome` (the
+proof is `cases` on its three constructors), so it carries no information about `detailsOf` beyond its type;
+the content of this stage is `accepted_sound` (soundness) and `detailsOf_complete` / `detailsOf_ok_iff`
+(completeness) below.  Kept because `probe_classes` uses it. -/
 theorem detailsOf_total (r : Response) :
     (∃ d, detailsOf r = .ok d) ∨ detailsOf r = .errParse ∨ detailsOf r = .errValidate := by
   cases h : detailsOf r with
@@ -170,6 +177,9 @@ theorem probe_classes (ds : List Bytes) :
   · simp
   · simp
 
+/-- `ProbeResult` does have the constructors `panic` and `hang` (inherited from `runQuery`), so this is not
+true by type: it rests on `runQuery_classes`.  The details stage contributes nothing to it — its outcome
+type has no such constructor (see `detailsOf_total`). -/
 theorem probe_total (ds : List Bytes) : probe ds ≠ .panic ∧ probe ds ≠ .hang := by
   rcases probe_classes ds with ⟨d, h⟩ | h | h | h | h <;> rw [h] <;> simp
 
@@ -269,6 +279,83 @@ theorem accepted_objectives {d : Details} (h : DetailsSpec.accepted d = true) :
   simp only [objectiveAccepted, Bool.and_eq_true] at this
   exact intIn_spec this.2
 
+/-! ### completeness of the details stage -/
+
+/-- the second half of what is assumed about the generated schemas: every `validate` tag of
+`details.Info` / `Player` / `Objective` is backed by a constraint `DetailsSpec.accepted` states on that
+very field and kind (`required` on a string ↔ listed as required string; `required`/`gt=0` on an int ↔
+`HostPort`; `gte=0` ↔ listed counter; `ratio` ↔ listed ratio field; `oneof=0 1 2` ↔ `Team`/`Status`;
+`oneof=0 1 2 3 4` ↔ `CoopStatus`) and no other tag occurs; field names are pairwise different.  Together
+with `details_facts_ok` (the converse direction): the validator and `accepted` ask for the same things.
+A tag added in the source changes the generated schema and this theorem stops checking. -/
+theorem details_cover_ok : DetailsProbe.CoverOk := by
+  constructor <;> decide
+
+/-- **`params.Unmarshal`, field by field.**  Unmarshalling the map `m` into the struct with schema `schema`
+succeeds with the values `f` exactly when, position by position (`All2`), `f` is the reading of `m`
+(`FieldReads`): a field without parameter name or without an entry in the map (core `List.lookup`) holds the
+zero value of its kind; an int field holds the number `strconv.Atoi` reads from the entry; a bool field the
+value of `1`/`true`/`0`/`false`; a string field the entry's bytes. -/
+theorem unmarshal_iff_reads (schema : Heartbeat.Schema) (m : Heartbeat.FieldMap) (f : Fields) :
+    Heartbeat.unmarshal schema m = some f ↔ StructReads schema m f :=
+  DetailsProbe.unmarshal_iff_reads schema m f
+
+/-- **completeness of the details stage (C07; "success stores the probed details", C13).**  If the decoded
+response `r` reads, field by field, as the details value `d` — the field map as `d.info`, the i-th player
+map as the i-th player, the i-th objective (as the map `name`/`status`) as the i-th objective; same number
+of players and objectives — and `d` satisfies the independently written `DetailsSpec.accepted`, then the
+stage returns exactly `d`.  So the stage cannot reject a response whose values parse and satisfy the
+validated constraints, and what it returns is the reading of the response, nothing else. -/
+theorem detailsOf_complete (r : Response) (d : Details)
+    (hi : StructReads infoSchema r.fields d.info)
+    (hp : All2 (StructReads playerSchema) r.players d.players)
+    (ho : All2 (fun o f => StructReads objectiveSchema (objMap o) f) r.objectives d.objectives)
+    (ha : DetailsSpec.accepted d = true) : detailsOf r = .ok d :=
+  detailsOf_complete_of details_facts_ok details_cover_ok r d hi hp ho ha
+
+/-- the parameter names of each generated schema are pairwise different (so a map can carry a value for every field) -/
+theorem details_params_nodup : DetailsProbe.ParamsNodup := by
+  constructor <;> decide
+
+/-- **every accepted value is reached (`detailsOf_complete` on the encoder).**  `encodeDetails d` writes `d` as a
+decoded response: every struct as the map from the parameter names of its schema to the values spelled
+canonically (ints as plain decimals `FilterSpec.renderInt`, bools `1`/`0`, strings as they are; objectives as
+their name/status pair).  For every `d` of the Go types' shape (`Shaped`: per field a value of the field's kind,
+ints within int64, the unnamed `Version` field zero) that satisfies `DetailsSpec.accepted`, the stage returns
+exactly `d` on that response.  So no accepted value is unreachable, and the stage reads every field back. -/
+theorem detailsOf_encode (d : Details) (hs : Shaped d) (ha : DetailsSpec.accepted d = true) :
+    detailsOf (encodeDetails d) = .ok d :=
+  detailsOf_encode_of details_facts_ok details_cover_ok details_params_nodup d hs ha
+
+/-- **the details stage, characterised.**  It returns `d` exactly when `NewDetailsFromParams` yields `d`
+(three `params.Unmarshal`s, `unmarshal_iff_reads`) and `d` satisfies `DetailsSpec.accepted`: on the values
+that parse, `Details.Validate` *is* the specification (soundness `accepted_sound` and completeness). -/
+theorem detailsOf_ok_iff (r : Response) (d : Details) :
+    detailsOf r = .ok d ↔ newDetailsFromParams r = some d ∧ DetailsSpec.accepted d = true :=
+  DetailsProbe.detailsOf_ok_iff details_facts_ok details_cover_ok r d
+
+/-- … and rejects with `ErrValidationFailed` exactly the parsed values that violate it -/
+theorem detailsOf_errValidate_iff (r : Response) :
+    detailsOf r = .errValidate ↔ ∃ d, newDetailsFromParams r = some d ∧ DetailsSpec.accepted d = false := by
+  constructor
+  · intro h
+    cases hd : newDetailsFromParams r with
+    | none => simp [detailsOf, hd] at h
+    | some d =>
+      refine ⟨d, rfl, ?_⟩
+      cases ha : DetailsSpec.accepted d with
+      | false => rfl
+      | true => rw [(detailsOf_ok_iff r d).mpr ⟨hd, ha⟩] at h; cases h
+  · rintro ⟨d, hd, ha⟩
+    cases h : detailsOf r with
+    | ok d' =>
+      have := (detailsOf_ok_iff r d').mp h
+      rw [hd] at this
+      cases this.1
+      rw [ha] at this; cases this.2
+    | errParse => simp [detailsOf, hd] at h; split at h <;> cases h
+    | errValidate => rfl
+
 end Swat4.C07
 
 namespace Swat4.C07.Examples
@@ -290,6 +377,37 @@ example : detailsOf (good "-0/+5" "2") = .ok
      [[.str (a "Joe"), .int 0, .int 0, .int 2, .bool false, .int 0, .int 0, .int 0, .int 0, .int 0, .int 0, .int 0, .int 0,
        .int 0, .int 0, .int 0, .int 0, .int 0, .bool false, .int 0, .int 0, .bool false]],
      [[.str (a "Rescue_All_Hostages"), .int 1]]⟩ := by decide
+
+/-- the hypotheses of `detailsOf_complete` hold for that response and value (one player, one objective): the
+readings through `unmarshal_iff_reads`, `accepted` by evaluation -/
+example :
+    let d : Details := ⟨[.str (a "Swat4 Server"), .int 10480, .str (a "SWAT 4"), .str (a "1.1"), .str (a "VIP Escort"), .int 0, .int 0,
+      .str (a "Fairfax Residence"), .bool false, .bool false, .int 0, .int 0, .int 0, .int 0, .int 0, .int 0, .int 0, .int 0,
+      .int 0, .int 0, .str (a "-0/+5"), .str [], .str []],
+     [[.str (a "Joe"), .int 0, .int 0, .int 2, .bool false, .int 0, .int 0, .int 0, .int 0, .int 0, .int 0, .int 0, .int 0,
+       .int 0, .int 0, .int 0, .int 0, .int 0, .bool false, .int 0, .int 0, .bool false]],
+     [[.str (a "Rescue_All_Hostages"), .int 1]]⟩
+    StructReads infoSchema (good "-0/+5" "2").fields d.info ∧
+    All2 (StructReads playerSchema) (good "-0/+5" "2").players d.players ∧
+    All2 (fun o f => StructReads objectiveSchema (objMap o) f) (good "-0/+5" "2").objectives d.objectives ∧
+    DetailsSpec.accepted d = true := by
+  refine ⟨(unmarshal_iff_reads _ _ _).mp (by decide), .cons ((unmarshal_iff_reads _ _ _).mp (by decide)) .nil,
+    .cons ((unmarshal_iff_reads _ _ _).mp (by decide)) .nil, by decide⟩
+
+/-- the hypotheses of `detailsOf_encode` hold for a value with negative and extreme ints, both bool values and a
+non-ASCII name (checked through the executable twin `shapedB`) -/
+example :
+    let d : Details := ⟨[.str (a "Swat4 Server"), .int 65535, .str (a "SWAT 4"), .str (a "1.1"), .str (a "VIP Escort"), .int 0, .int 16,
+      .str (a "Fairfax Residence"), .bool true, .bool false, .int 0, .int 5, .int (-9223372036854775808), .int 0, .int (-7), .int 9223372036854775807,
+      .int 0, .int 0, .int 0, .int 0, .str (a "-0/+5"), .str [], .str []],
+     [[.str [0xc3, 0xa9], .int (-3), .int 0, .int 2, .bool true, .int 4, .int 0, .int 0, .int 0, .int 0, .int 0, .int 0, .int 0,
+       .int 0, .int 0, .int 0, .int 0, .int 0, .bool false, .int 0, .int 0, .bool true]],
+     [[.str (a "Rescue_All_Hostages"), .int 1]]⟩
+    Shaped d ∧ DetailsSpec.accepted d = true ∧ detailsOf (encodeDetails d) = .ok d := by
+  intro d
+  have hs : Shaped d := shaped_of_B (by decide)
+  have ha : DetailsSpec.accepted d = true := by decide
+  exact ⟨hs, ha, detailsOf_encode d hs ha⟩
 
 /-- the seeded crash witness is an ordinary validation failure -/
 example : detailsOf (good "1/2/3" "2") = .errValidate := by decide
